@@ -158,6 +158,7 @@ void h_XT_extra(void)
 '''
 
 COMMON_RULES = [
+    (r'assert\((m_\w+)\.empty\(\) == true\);', r'__CPROVER_assert(g_cleared[ID_@K@_\1] == true, "in-code assert: \1 is empty here (a debug assert is not a clear(): in a release build nothing empties it)");', (0, 4)),
     (r'using std::for_each;', '', (0, 1)),
     (r'for_each\(\s*(m_\w+)\.begin\(\),\s*\1\.end\(\),\s*[^;]*?\);', r'xv_delete_all(ID_@K@_\1);', (0, 6)),
     (r'\b(m_\w+)(?:\.|->)(?:clear|reset)\(\)(?=[;,])', r'xv_cleared(ID_@K@_\1)', (0, 80)),
